@@ -218,6 +218,43 @@ M("M_C13_f", ["C13"], "cotengra/interface.py",
   "        except ZeroDivisionError:\n            key = None",
   "revert of the unhashable-key fallback", ["tests/test_interface.py"])
 
+# C13, expressions with constants / user presets (widened workload).  The unchanged library rebuilds an expression with
+# constants on every call; the first three edits add the cache a maintainer might add - with an incomplete key.
+_C13_CONST_OLD = "        # handle constants specially with autoray\n        return _array_contract_expression_with_constants(\n"
+
+
+def _c13_const_cache(keypart):
+    return (
+        "        # handle constants specially with autoray\n"
+        "        if cache and can_hash_optimize(optimize.__class__):\n"
+        "            ckey = (\"constants\", hash_contraction(inputs, output, size_dict, optimize), " + keypart + ", tuple(sorted(kwargs.items(), key=repr)))\n"
+        "            try:\n"
+        "                return _CONTRACT_EXPR_CACHE[ckey]\n"
+        "            except KeyError:\n"
+        "                pass\n"
+        "            expr = _CONTRACT_EXPR_CACHE[ckey] = _array_contract_expression_with_constants(\n"
+        "                inputs, output, size_dict, constants, optimize=optimize, cache=cache, **kwargs\n"
+        "            )\n"
+        "            return expr\n"
+        "        return _array_contract_expression_with_constants(\n"
+    )
+
+
+M("M_C13_x1", ["C13"], "cotengra/interface.py", _C13_CONST_OLD, _c13_const_cache("tuple(sorted(constants))"),
+  "expressions with constants are cached on the POSITIONS of the constants: other constant arrays in the same positions get the first ones' folded values (stale cache)", ["tests/test_interface.py"])
+M("M_C13_x2", ["C13"], "cotengra/interface.py", _C13_CONST_OLD, _c13_const_cache("tuple((i, id(constants[i])) for i in sorted(constants))"),
+  "expressions with constants are cached on the positions and the id() of the constant arrays: a new array at the address of a freed one hits the stale entry", ["tests/test_interface.py"])
+M("M_C13_x4", ["C13"], "cotengra/interface.py", _C13_CONST_OLD, _c13_const_cache("len(constants)"),
+  "expressions with constants are cached on the NUMBER of constants: which operands are constant is not part of the key", ["tests/test_interface.py"])
+M("M_C13_x3", ["C13"], "cotengra/interface.py",
+  "            key = hash_contraction(inputs, output, size_dict, optimize)\n        except TypeError:\n            # some part of the contraction specification is unhashable",
+  "            key = hash_contraction(inputs, output, size_dict, optimize.__class__.__name__)\n        except TypeError:\n            # some part of the contraction specification is unhashable",
+  "path cache keyed on the KIND of optimize (str / tuple / list), not its value: every preset name shares one cached path per contraction", ["tests/test_interface.py"])
+M("M_C13_x5", ["C13"], "cotengra/interface.py",
+  "            lazy_variables_and_constants.append(constant)\n",
+  "            lazy_variables_and_constants.insert(0, constant)\n",
+  "expressions with constants: the constants are gathered in front of the variables (same in both cache modes: only the dense reference sees it)", ["tests/test_interface.py"])
+
 # ------------------------------- C15 --------------------------------------
 M("M_C15_a", ["C15"], "cotengra/utils.py",
   "            with open(tmpname, \"wb\") as f:\n                pickle.dump(v, f)\n            os.replace(tmpname, fname)",
